@@ -520,12 +520,27 @@ def eval_rev(case_dec, rng, K=3, full_max=24, check_values=True):
     return Outcome("ok", extra=extra)
 
 
-def eval_fwd(case_dec, rng, K=2, check_values=True):
+def _jvp_by_reverse_twice(acall, x0, y0):
+    """J v obtained the way make_jvp_reversemode / make_ggnvp obtain it: reverse mode applied to the
+    cotangent -> VJP map, taken at the zero cotangent (autograd's complex convention makes the result J_R v)."""
+    from autograd.core import make_vjp
+
+    g0 = common.tree_map(lambda a: onp.zeros(onp.shape(a), dtype=onp.asarray(a).dtype) if onp.ndim(a) else onp.asarray(a).dtype.type(0), y0)
+    back, _ = make_vjp(lambda g: make_vjp(acall, x0)[0](g), g0)
+    return lambda v: (y0, back(v))
+
+
+def eval_fwd(case_dec, rng, K=2, check_values=True, via="jvp"):
     prep, out = prepare(case_dec, allow_empty=not check_values)
     if out:
         return out
     ncall, acall, x0, y0, F = prep
     from autograd.core import make_jvp
+
+    if via == "rev2":
+        if case_dec.get("point", "regular") != "regular":
+            return Outcome("not_judged", "rev2_regular_points_only")
+        make_jvp = lambda f, x: _jvp_by_reverse_twice(f, x, y0)
 
     point = case_dec.get("point", "regular")
     domain = case_dec.get("domain")
@@ -1151,6 +1166,14 @@ def run_case(pid, case_dec, rng, tier):
         o2 = evaluate(case_dec, "fwd", rng, tier)
         if o2.status == "violation":
             return o2, "fwd"
+        # the tangent once more through reverse-over-reverse at the zero cotangent (make_jvp_reversemode,
+        # make_ggnvp): a rule that inspects the VALUE of a traced cotangent goes wrong exactly there
+        o3 = eval_fwd(case_dec, rng, K=1, via="rev2")
+        if o3.status == "violation":
+            o3.symptom = "rev2:" + str(o3.symptom)
+            return o3, "rev2"
+        if o1.status == "ok" and o3.status == "ok":
+            o1.extra["rev2"] = 1
         if o1.status == "ok":
             o1.extra["fwd"] = o2.status if o2.status == "ok" else o2.reason
             return o1, "rev+fwd" if o2.status == "ok" else "rev"
@@ -1184,7 +1207,7 @@ def _record(res, pid, c, o, mode, sample_every=400):
     res["evaluations"] += 1
     sig = signature(c, mode)
     cnt = res["counters"]
-    for k in ("primal_mismatch", "input_mutated", "irregular_dirs", "second_diff_checked", "single_mode"):
+    for k in ("primal_mismatch", "input_mutated", "irregular_dirs", "second_diff_checked", "single_mode", "rev2"):
         if o.extra.get(k):
             cnt[k] = cnt.get(k, 0) + int(o.extra[k])
     if o.status == "ok":
